@@ -152,7 +152,10 @@ func (l *entryLog) AddEntries(entries []raftpb.Entry) error {
 			extra := l.files[firstIdx+1:]
 			extra = append(extra, l.current)
 			l.current = l.files[firstIdx]
-			for _, ef := range extra {
+			// newest first: a process that dies in between leaves a log that merely ends earlier,
+			// not one with a file missing in the middle
+			for i := len(extra) - 1; i >= 0; i-- {
+				ef := extra[i]
 				logger.GetLogger().Info(fmt.Sprintf("Deleting extra file: %d\n", ef.fid))
 				if err := ef.delete(); err != nil {
 					logger.GetLogger().Error(fmt.Sprintf("deleting file: %s. error: %+v\n", ef.entry.Name(), err))
